@@ -40,19 +40,25 @@ def main():
     pid = a[0]
     src = os.path.abspath(a[1] if len(a) > 1 and not a[1].startswith('--') else '/tmp/seed/%s/out' % pid)
     checks = [pid]
+    base = 'main'
+    if '--base' in a:          # a seed written against an earlier head that no longer applies to main
+        base = a[a.index('--base') + 1]
+    only = a[a.index('--only') + 1].split(',') if '--only' in a else None
     if '--checks' in a:
         checks = a[a.index('--checks') + 1].split(',')
     os.makedirs(ST, exist_ok=True)
     for patch in sorted(glob.glob(os.path.join(src, 'patch*.diff'))):
         k = re.search(r'patch(\w+)\.diff', patch).group(1)
+        if only and k not in only:
+            continue
         demo = os.path.join(src, 'demo%s.c' % k)
         note = os.path.join(src, 'note%s.txt' % k)
         name = '%s-%s' % (pid, k)
         rd = os.path.join(ST, 'seed_' + name)
         sh(['git', '-C', '/repo', 'worktree', 'remove', '--force', rd]); shutil.rmtree(rd, ignore_errors=True)
         sh(['git', '-C', '/repo', 'worktree', 'prune'])
-        rc, o = sh(['git', '-C', '/repo', 'worktree', 'add', '--detach', '-f', rd, 'main'])
-        meta = {'property': pid, 'name': name, 'base_commit': sh(['git', '-C', '/repo', 'rev-parse', '--short', 'main'])[1].strip(),
+        rc, o = sh(['git', '-C', '/repo', 'worktree', 'add', '--detach', '-f', rd, base])
+        meta = {'property': pid, 'name': name, 'base_commit': sh(['git', '-C', '/repo', 'rev-parse', '--short', base])[1].strip(),
                 'author': 'independent sub-agent given only the property text and a scratch worktree',
                 'needs_to_manifest': open(note).read() if os.path.exists(note) else '', 'ran': []}
         ok = False
